@@ -1,8 +1,160 @@
 /-
-  C12 — property theorems (being added; see tools/agent_briefs/C12.md)
+  C12 — root_attach: property theorems (see tools/agent_briefs/C12.md)
 -/
 import TT.Spec.Transform
+import TT.Transform.RootAttach
+import TT.Lemmas.WF
+import TT.Lemmas.RootAttach
 namespace TT.Props.C12
 open TT TT.Tree TT.Spec
+
+/-- `(S#0 (A#1 1) (NP#2 (B#3 2) (D#4 4)) (C#5 3) (E#6 5))`: the token 3 sits between the two tokens of `NP`;
+    root_attach moves it below `NP`. -/
+def exT : Tree :=
+  node { label := "S".toList, uid := some 0 }
+    [leaf 1 { label := "A".toList, uid := some 1 },
+     node { label := "NP".toList, uid := some 2 }
+       [leaf 2 { label := "B".toList, uid := some 3 }, leaf 4 { label := "D".toList, uid := some 4 }],
+     leaf 3 { label := "C".toList, uid := some 5 },
+     leaf 5 { label := "E".toList, uid := some 6 }]
+
+/-- the expected result -/
+def exR : Tree :=
+  node { label := "S".toList, uid := some 0 }
+    [leaf 1 { label := "A".toList, uid := some 1 },
+     node { label := "NP".toList, uid := some 2 }
+       [leaf 2 { label := "B".toList, uid := some 3 }, leaf 4 { label := "D".toList, uid := some 4 },
+        leaf 3 { label := "C".toList, uid := some 5 }],
+     leaf 5 { label := "E".toList, uid := some 6 }]
+
+example : (rootAttach exT).beq exR = true := by decide
+example : WF exT = true := by decide
+example : exT.noEmpty = true := by decide
+example : uidsOK exT = true := by decide
+
+/-! ### attachLowest -/
+
+/-- `attachLowest` only adds `c`: tokens of the result = tokens of the tree plus tokens of `c` -/
+theorem attachLowest_leaves (c : Tree) (tl tr : Nat) (f : Fields) (ks : List Tree) (h : tl ≠ tr) :
+    (attachLowest c tl tr (node f ks)).leaves.Perm ((node f ks).leaves ++ c.leaves) :=
+  Lemmas.RootAttach.attachLowest_additive Lemmas.RootAttach.additive_leaves c tl tr h _ rfl
+
+example : ((attachLowest (leaf 3 {}) 2 4 (node {} [leaf 1 {}, node {} [leaf 2 {}, leaf 4 {}]])).leaves.map num)
+    = [1, 2, 4, 3] := by decide
+
+/-- the hypothesis `tl ≠ tr` of `attachLowest_leaves` cannot be dropped: below a token `c` is lost -/
+example : (attachLowest (leaf 3 {}) 2 2 (node {} [leaf 2 {}])).leaves.map num = [2] := by decide
+
+/-- where it lands: `lowestSpanning` describes the node that receives `c` -/
+theorem attachLowest_noEmpty (c : Tree) (tl tr : Nat) (t : Tree) (h : t.noEmpty = true) (hc : c.noEmpty = true) :
+    (attachLowest c tl tr t).noEmpty = true :=
+  Lemmas.RootAttach.attachLowest_noEmpty c tl tr hc t h
+
+theorem attachLowest_consLabels (c : Tree) (tl tr : Nat) (f : Fields) (ks : List Tree) (h : tl ≠ tr) :
+    (consLabels (attachLowest c tl tr (node f ks))).Perm (consLabels (node f ks) ++ consLabels c) :=
+  Lemmas.RootAttach.attachLowest_additive Lemmas.RootAttach.additive_consLabels c tl tr h _ rfl
+
+/-! ### one step -/
+
+/-- in `rootAttachStep` the two tokens handed to `attachLowest` are always different (`tl < tr`):
+    either nothing happens or one root child is taken out and attached again -/
+theorem rootAttachStep_cases (tmin tmax : Nat) (cur : Tree) (key : Nat) :
+    rootAttachStep tmin tmax cur key = cur ∨
+    ∃ f ks c tl tr, cur = node f ks ∧ ks.find? (fun k => leftmost k == key) = some c ∧ tl < tr ∧
+      rootAttachStep tmin tmax cur key =
+        attachLowest c tl tr (node f (eraseFirst (fun k => leftmost k == key) ks)) :=
+  Lemmas.RootAttach.rootAttachStep_cases tmin tmax cur key
+
+/-- the step keeps the token multiset, the constituent-label multiset, noEmpty -/
+theorem rootAttachStep_leaves (tmin tmax : Nat) (cur : Tree) (key : Nat) :
+    (rootAttachStep tmin tmax cur key).leaves.Perm cur.leaves :=
+  Lemmas.RootAttach.rootAttachStep_additive Lemmas.RootAttach.additive_leaves tmin tmax cur key
+
+theorem rootAttachStep_consLabels (tmin tmax : Nat) (cur : Tree) (key : Nat) :
+    (consLabels (rootAttachStep tmin tmax cur key)).Perm (consLabels cur) :=
+  Lemmas.RootAttach.rootAttachStep_additive Lemmas.RootAttach.additive_consLabels tmin tmax cur key
+
+theorem rootAttachStep_noEmpty (tmin tmax : Nat) (cur : Tree) (key : Nat) (h : cur.noEmpty = true) :
+    (rootAttachStep tmin tmax cur key).noEmpty = true :=
+  Lemmas.RootAttach.rootAttachStep_noEmpty tmin tmax cur key h
+
+example : (rootAttachStep 1 5 exT 3).beq exR = true := by decide
+
+/-! ### the whole transformation -/
+
+theorem rootAttach_leaves (t : Tree) : (rootAttach t).leaves.Perm t.leaves :=
+  Lemmas.RootAttach.rootAttach_additive Lemmas.RootAttach.additive_leaves t
+
+theorem rootAttach_consLabels (t : Tree) : (consLabels (rootAttach t)).Perm (consLabels t) :=
+  Lemmas.RootAttach.rootAttach_additive Lemmas.RootAttach.additive_consLabels t
+
+theorem rootAttach_noEmpty (t : Tree) (h : t.noEmpty = true) : (rootAttach t).noEmpty = true :=
+  Lemmas.RootAttach.rootAttach_noEmpty t h
+
+theorem rootAttach_isNode (t : Tree) (h : t.isLeaf = false) : (rootAttach t).isLeaf = false := by
+  rw [Lemmas.RootAttach.rootAttach_isLeaf]; exact h
+
+example : exT.isLeaf = false := rfl
+
+theorem rootAttach_WF (t : Tree) (h : WF t = true) : WF (rootAttach t) = true :=
+  Lemmas.WF.WF_of_perm t (rootAttach t) h ((rootAttach_leaves t).map num)
+    (rootAttach_noEmpty t (Lemmas.WF.WF_noEmpty t h))
+    (rootAttach_isNode t ((Lemmas.WF.WF_iff t).1 h).1)
+
+theorem rootAttach_sentence (t : Tree) (h : WF t = true) : sentence (rootAttach t) = sentence t :=
+  Lemmas.WF.sentence_of_leaves_perm t (rootAttach t) (rootAttach_leaves t) (Lemmas.WF.WF_nodup t h)
+
+example : sentence (rootAttach exT) = sentence exT := by decide
+
+/-- a child at the sentence start or end stays -/
+theorem rootAttachStep_edge (tmin tmax : Nat) (f : Fields) (ks : List Tree) (key : Nat) (c : Tree)
+    (hc : ks.find? (fun k => leftmost k == key) = some c) (hedge : leftmost c - 1 < tmin) :
+    rootAttachStep tmin tmax (node f ks) key = node f ks := by
+  simp only [rootAttachStep, hc, hedge, decide_true, Bool.true_or, if_true]
+
+example : rootAttachStep 1 5 exT 1 = exT :=
+  rootAttachStep_edge 1 5 _ _ 1 (leaf 1 { label := "A".toList, uid := some 1 }) (by rfl) (by decide)
+
+/-- the root's fields never change and no root child that is not processed disappears -/
+theorem rootAttach_root_fields (t : Tree) : (rootAttach t).fields = t.fields :=
+  Lemmas.RootAttach.rootAttach_fields t
+
+/-! ### node identity (uids) -/
+
+/-- the multiset of node signatures (data, kind, number) is unchanged -/
+theorem rootAttach_sigs (t : Tree) :
+    ((subtrees (rootAttach t)).map Lemmas.RootAttach.sig).Perm ((subtrees t).map Lemmas.RootAttach.sig) :=
+  Lemmas.RootAttach.rootAttach_additive Lemmas.RootAttach.additive_sigs t
+
+/-- hardest: with distinct uids, every node whose parent is not the root keeps its parent, and node contents are unchanged -/
+theorem rootAttach_content (t : Tree) (hu : uidsOK t = true) : contentKept t (rootAttach t) = true :=
+  Lemmas.RootAttach.rootAttach_contentKept t hu
+
+example : contentKept exT (rootAttach exT) = true := by decide
+
+/-- `attachLowest` alone: the parent map of the result is the parent map of the tree plus the entries of `c`
+    under its new parent `q` -/
+theorem attachLowest_parentMap (c : Tree) (tl tr : Nat) (f : Fields) (ks : List Tree) (h : tl ≠ tr)
+    (par : Option Nat) :
+    ∃ q, (parentMap par (attachLowest c tl tr (node f ks))).Perm (parentMap par (node f ks) ++ parentMap q c) :=
+  Lemmas.RootAttach.attachLowest_parentMap c tl tr h _ rfl par
+
+/-- one step keeps the parent entry of every node that is not a child of the root -/
+theorem rootAttachStep_parentMap (tmin tmax : Nat) (cur : Tree) (key : Nat) :
+    ∀ e ∈ parentMap none cur, e.2 ≠ cur.fields.uid → e ∈ parentMap none (rootAttachStep tmin tmax cur key) :=
+  Lemmas.RootAttach.rootAttachStep_parentMap tmin tmax cur key
+
+/-- (the hypothesis `hwf` is not needed) -/
+theorem rootAttach_parents (t : Tree) (hu : uidsOK t = true) (hwf : WF t = true) :
+    parentsKept t (rootAttach t) (fun s => parentOfUid t (s.fields.uid.getD 0) == some t.fields.uid) = true :=
+  have _ := hwf
+  Lemmas.RootAttach.rootAttach_parentsKept t hu
+
+example : parentsKept exT (rootAttach exT)
+    (fun s => parentOfUid exT (s.fields.uid.getD 0) == some exT.fields.uid) = true := by decide
+/-- the statement is not vacuous on the example: the token 3 (uid 5) is moved below `NP` (uid 2), the tokens
+    of `NP` keep their parent -/
+example : parentOfUid exT 5 = some (some 0) ∧ parentOfUid (rootAttach exT) 5 = some (some 2) ∧
+    parentOfUid exT 3 = some (some 2) ∧ parentOfUid (rootAttach exT) 3 = some (some 2) := by decide
 
 end TT.Props.C12
